@@ -104,10 +104,10 @@ def run():
     chk.build_and_audit()
     r = C.rng("C05")
     quick = C.tier() != "thorough"
-    specs = scenarios(r, 140 if quick else 1500)
+    specs = scenarios(r, C.T(140, 1500))
     fails = D.run_specs(chk, "driver-level best_score/best_pos/best_para vs _progress_bar.py + finish_search", specs, monitor)
     chk.monitor("C05 statement on the real runs (ties, plateaus, signs, non-finite)", len(specs), fails)
-    vf, vk = verbosity_pairs(r, 12 if quick else 150)
-    chk.monitor("verbosity matrix: 5 verbosity settings give identical search_data / best", (12 if quick else 150) * 5, vf, vk)
+    vf, vk = verbosity_pairs(r, C.T(12, 150))
+    chk.monitor("verbosity matrix: 5 verbosity settings give identical search_data / best", (C.T(12, 150)) * 5, vf, vk)
     scen.shutdown_manager()
     return chk.finish()
